@@ -58,6 +58,7 @@ type harness struct {
 	srv      *plugtest.Server
 	sockDir  string
 	archives map[string][]byte // plugin name -> tar.gz
+	binary   []byte            // the served plugin binary
 	tmpl     map[string]string // start state -> template HOME
 }
 
@@ -327,35 +328,12 @@ func faultsFor(trace []tracePoint, thorough bool) []fault {
 }
 
 // classify: finding key from the crash point (input) and the failing probes (symptom).
-func classify(f fault, fails []probeFail) string {
-	all := ""
-	for _, pf := range fails {
-		all += pf.Stderr + "\n"
-	}
-	switch {
-	case f.Point == "extensions.before_write" && f.Torn >= 0 && strings.Contains(all, "couldn't json-decode file extension handlers file"):
-		return "torn-registry:file_extension_handlers.json"
-	case f.Point == "repo.before_write" && f.Torn >= 0 && strings.Contains(all, "couldn't decode plugin repository file"):
-		return "torn-registry:repositories"
-	case strings.HasPrefix(f.Point, "install.") && f.Point != "install.done" && f.Point != "install.after_remove_archive" &&
-		(strings.Contains(all, "is not installed") || strings.Contains(all, "couldn't start plugin") || strings.Contains(all, "plugin exited prematurely") || strings.Contains(all, "index out of range") || strings.Contains(all, "exec format error") || strings.Contains(all, "couldn't connect to plugin")):
-		// the version directory is emptied / created / filled in place while start-up resolves
-		// to the highest version DIRECTORY
-		return "install-inplace-version-dir:" + f.Point
-	}
-	probes := []string{}
-	for _, pf := range fails {
-		probes = append(probes, pf.Probe)
-	}
-	return "crash-breaks:" + f.Point + ":" + strings.Join(probes, "+")
-}
-
 func Run(c *core.Ctx) core.FinishOpts {
 	opts := core.FinishOpts{
 		Level: "fault_enumeration",
 		Rule: "faults = every (hook point, hit index) reached by a traced run of each scenario, crashed once, plus torn writes of every file written at a BeforeWrite/AfterWrite point at prefix lengths {0,1,half,len-1} " +
 			"(thorough: every prefix of the small registry files, 16 bytes at each end + 64 evenly spaced + block boundaries of the archive and the extracted binary); scenarios = start state (nothing / v1 installed+configured / v1+v2) x action " +
-			"(install new version, reinstall same version, install a second plugin claiming a registered extension, repository add); non-trivial = the fault was injected (exit 137) and the probes ran; distinct by scenario+fault",
+			"(install new version, reinstall same version, install a second plugin claiming a registered extension, repository add); after every fault (and every completed run) additionally: all version directories installed before and not being (re)installed are byte-identical; non-trivial = the fault was injected (exit 137) and the probes ran; distinct by scenario+fault",
 		Floor:      c.Pick(80, 600),
 		Exhaustive: true,
 		Assumptions: []string{
@@ -381,6 +359,7 @@ func Run(c *core.Ctx) core.FinishOpts {
 		c.Inconclusive("no-testplugin")
 		return opts
 	}
+	h.binary = bin
 	h.archives = map[string][]byte{
 		pluginName: plugtest.TarGz(pluginName, bin, gzip.BestSpeed),
 		otherName:  plugtest.TarGz(otherName, bin, gzip.BestSpeed),
@@ -433,6 +412,10 @@ func Run(c *core.Ctx) core.FinishOpts {
 		st := stateInfo(sc.start)
 		if fails := h.probe(home, st, sc.target, sc.newVersion); len(fails) > 0 {
 			c.Violation("uncrashed-run-breaks-probes:"+sc.name, fmt.Sprintf("after the completed command the probes fail: %+v", fails), map[string]interface{}{"id": sc.name + "/trace", "args": sc.args})
+		}
+		if damage := previousVersionsDamage(h.tmpl[sc.start], home, sc); len(damage) > 0 {
+			c.Violation("previous-version-damaged:completed-run", fmt.Sprintf("scenario %s (%s) completed without any fault, yet versions installed before and not being (re)installed were changed: %v", sc.name, strings.Join(sc.args, " "), damage),
+				map[string]interface{}{"id": sc.name + "/trace", "args": sc.args, "damage": damage})
 		}
 		trace, err := readTrace(tracePath)
 		if err != nil || len(trace) == 0 {
@@ -496,6 +479,9 @@ func Run(c *core.Ctx) core.FinishOpts {
 			st.installed = []string{"9.9.9"}
 			sc.newVersion = "9.9.8"
 		}
+		// invariant: whatever was installed before and is not being (re)installed is byte-identical
+		damage := previousVersionsDamage(h.tmpl[sc.start], home, sc)
+		dirState, binaryPresent := newDirState(home, sc, h.binary)
 		fails := h.probe(home, st, sc.target, sc.newVersion)
 		c.Nontrivial(id)
 		c.Count("faults/"+f.Point, 1)
@@ -503,12 +489,18 @@ func Run(c *core.Ctx) core.FinishOpts {
 			c.Count("torn_faults/"+f.Point, 1)
 		}
 		c.Count("scenario/"+sc.name, 1)
+		c.Count("invariant/previous_versions_compared", 1)
+		if len(damage) > 0 {
+			c.Violation("previous-version-damaged:"+f.Point, fmt.Sprintf("scenario %s (%s), crash at %s: versions installed before the action and not being (re)installed were changed: %v", sc.name, strings.Join(sc.args, " "), f.Spec, damage),
+				map[string]interface{}{"id": id, "scenario": sc.name, "start_state": sc.start, "command": sc.args, "crash_at": f.Spec, "damage": damage, "failed_probes": fails, "home_listing": listing(home)})
+			return
+		}
 		if len(fails) == 0 {
 			c.Count("survived/"+f.Point, 1)
 			c.Sample(map[string]interface{}{"id": id, "scenario": sc.name, "fault": f.Spec, "probes": "all passed"})
 			return
 		}
-		key := classify(f, fails)
+		key := classify(sc, f, fails, st, damage, dirState, binaryPresent)
 		what := fmt.Sprintf("scenario %s (%s), crash at %s: ", sc.name, strings.Join(sc.args, " "), f.Spec)
 		for _, pf := range fails {
 			what += fmt.Sprintf("[%s: %s — %s] ", pf.Probe, pf.Why, pf.Stderr)
